@@ -170,8 +170,14 @@ def run(tier, seed, replay):
                 lines = [json.loads(l) for l in q.stdout.splitlines() if l.strip()]
                 inv = lines[0]["v"]
                 # shared services: constructor invoked at most once per container
+                from vlib import spec as _spec
+                _d = _spec.Deps(cfg)
+                _edges = _d.svc_edges()
                 for s, (sc, ctor) in metas[k].items():
                     uses = sum(1 for s2, (sc2, c2) in metas[k].items() if c2 == ctor)
+                    if sc is None and ctor:
+                        # no declared scope: contextual iff it transitively depends on a service declared contextual, else shared
+                        sc = "contextual" if any((cfg["services"].get(x) or {}).get("scope") == "contextual" for x in _spec.reach(_edges, s)) else "shared"
                     if sc == "shared" and uses == 1:
                         dist["max_shared_ctor_calls"] = max(dist["max_shared_ctor_calls"], inv.get(ctor, 0))
                         if inv.get(ctor, 0) > 1:
